@@ -46,8 +46,9 @@ class Gen:
         # a small theme of reserved-ish names reused across namespaces, types and fields of one set, so the same token
         # shows up in different identifier roles (path component, type name, field, constant)
         self.theme = self.r.sample(PATTERN_NAMES, 3) + self.r.sample(KW, 3)
+        self.ns_names = set()
 
-    def name(self, used, cap=False, p_theme=0.3):
+    def name(self, used, cap=False, p_theme=0.3, is_ns=False):
         r = self.r
         for _ in range(200):
             c = r.random()
@@ -66,8 +67,12 @@ class Gen:
             if cap:
                 n = n[0].upper() + n[1:]
             k = n.lower().strip('_')
+            if not self.hostile and k in self.ns_names and not is_ns:
+                continue     # codec profile: attributes/types are never named like a namespace component (a C06 matter)
             if k not in used and re.fullmatch(r'[A-Za-z_][A-Za-z0-9_]*', n):
                 used.add(k)
+                if is_ns:
+                    self.ns_names.add(k)
                 return n
         raise RuntimeError("name pool exhausted")
 
@@ -151,15 +156,15 @@ class Gen:
         roots = []
         usedroot = set()
         for _ in range(nroots):
-            root = self.name(usedroot)
+            root = self.name(usedroot, is_ns=True)
             roots.append(root)
             nss = [[root]]
             usedns = collections.defaultdict(set)
             for _ in range(r.randint(0, 3)):
                 base = r.choice(nss)
-                nss.append(base + [self.name(usedns['.'.join(base)], p_theme=0.6)])
+                nss.append(base + [self.name(usedns['.'.join(base)], p_theme=0.6, is_ns=True)])
                 if r.random() < 0.3:  # possibly an empty intermediate namespace
-                    nss.append(nss[-1] + [self.name(usedns['.'.join(nss[-1])], p_theme=0.6)])
+                    nss.append(nss[-1] + [self.name(usedns['.'.join(nss[-1])], p_theme=0.6, is_ns=True)])
             used_t = collections.defaultdict(set)
             for _ in range(r.randint(*types_per_root)):
                 ns = r.choice(nss)
